@@ -198,13 +198,7 @@ def gen_network(rng, size=None):
     head = [p for p in po if p.tag == "point"]
     tail = [p for p in po if p.tag != "point"]
     rng.shuffle(tail)
-    poa = []
-    if rng.random() < 0.8:
-        poa.append(("distance-stdev", rng.choice(["5", "5 3", "5 3 1", " 4.0  2 "])))
-    if rng.random() < 0.8:
-        poa.append(("direction-stdev", pos(rng)))
-    if rng.random() < 0.8:
-        poa.append(("angle-stdev", pos(rng)))
+    poa = [("distance-stdev", rng.choice(["5", "5 3", "5 3 1", " 4.0  2 "])), ("direction-stdev", pos(rng)), ("angle-stdev", pos(rng))]
     poa.append(("zenith-angle-stdev", pos(rng)))
     poa.append(("azimuth-stdev", pos(rng)))
     net_kids = []
@@ -491,7 +485,7 @@ def run_cov(ctx, corr, exe):
     """cov-mat accounting through a <height-differences> cluster with exactly `dim` dh elements"""
     rng = ctx.rng
     items = []
-    for _ in range(ctx.size(250, 4000)):
+    for _ in range(ctx.size(600, 6000)):
         dim = rng.randint(1, 6)
         band = rng.randint(0, dim - 1)
         need = dim * (band + 1) - band * (band + 1) // 2
@@ -601,18 +595,18 @@ def exec_inputs(ctx, thorough_override=None):
             inputs.append(("corpus " + f.name, f.read_bytes()))
     files = sorted(_glob.glob(str(ctx.repo / "tests" / "gama-local" / "input" / "*.gkf")))
     small = [f for f in files if os.path.getsize(f) < 6000]
-    for f in (files if thorough else rng.sample(files, min(6, len(files)))):
+    for f in (files if thorough else rng.sample(files, min(10, len(files)))):
         inputs.append(("archived " + os.path.basename(f), Path(f).read_bytes()))
-    gen = [doc_text(gen_network(rng)).encode() for _ in range(40 if thorough else 12)]
+    gen = [doc_text(gen_network(rng)).encode() for _ in range(150 if thorough else 40)]
     for i, g in enumerate(gen):
         inputs.append((f"generated {i}", g))
     bases = [Path(f).read_bytes() for f in (small if thorough else rng.sample(small, min(3, len(small))))] + gen[:(10 if thorough else 3)]
     # truncation at every byte (thorough) / sampled (quick)
     for bi, b in enumerate(bases):
-        cuts = range(len(b)) if thorough and len(b) < 2500 else sorted(rng.sample(range(len(b)), min(len(b), 200 if thorough else 12)))
+        cuts = range(len(b)) if thorough and len(b) < 2500 else sorted(rng.sample(range(len(b)), min(len(b), 400 if thorough else 40)))
         for c in cuts:
             inputs.append((f"truncate base{bi} at {c}", b[:c]))
-        for _ in range(300 if thorough else 15):
+        for _ in range(600 if thorough else 40):
             m = bytearray(b)
             for _ in range(rng.choice([1, 1, 2, 4])):
                 p = rng.randrange(len(m))
@@ -629,7 +623,7 @@ def exec_inputs(ctx, thorough_override=None):
                     m[a:z] = m[a:z] * 2 if z - a < 200 else b""
             inputs.append((f"byte mutation base{bi}", bytes(m)))
     # structural mutations and numeric literals in attribute positions
-    for i in range(600 if thorough else 40):
+    for i in range(3000 if thorough else 200):
         r, what = mutate(rng, gen_network(rng))
         inputs.append((f"mutation: {what}", ('<?xml version="1.0" ?>\n' + ser_mut(r)).encode()))
     lits = ["", " ", "+", "-", ".", "e", "1e", "1e+", "1e5", "1E-3", "+.5", "5.", "1 1", "1.2.3", "0x10", "1e999", "-1e999", "99999999999999999999",
@@ -639,7 +633,7 @@ def exec_inputs(ctx, thorough_override=None):
              ("point", "x"), ("point", "z"), ("distance", "val"), ("direction", "val"), ("angle", "val"), ("obs", "orientation"), ("obs", "from_dh"),
              ("dh", "val"), ("dh", "dist"), ("vec", "dx"), ("cov-mat", "dim"), ("cov-mat", "band"), ("distance", "stdev")]
     combos = [(t, a, v) for (t, a) in attrs for v in lits]
-    for (t, a, v) in (combos if thorough else rng.sample(combos, 60)):
+    for (t, a, v) in (combos if thorough else rng.sample(combos, 150)):
         root = gen_network(random.Random(f"{ctx.seed}-{t}"), size=4)
         nodes = [e for e, _ in walk(root) if e.tag == t]
         if not nodes:
@@ -653,7 +647,7 @@ def exec_inputs(ctx, thorough_override=None):
         inputs.append((f"literal {t}/@{a}={v!r}", doc_text(root).encode()))
     # cov-mat dimension vs number of observations, huge dimensions
     for t in ("obs", "height-differences", "coordinates", "vectors"):
-        for _ in range(20 if thorough else 3):
+        for _ in range(40 if thorough else 5):
             for _try in range(30):
                 root = gen_network(rng)
                 cl = [e for e, _ in walk(root) if e.tag == t and any(k.tag == "cov-mat" for k in e.kids)]
@@ -670,7 +664,7 @@ def exec_inputs(ctx, thorough_override=None):
             cm.text = cov_text(rng, d, b)
             inputs.append((f"cov-mat dim {d} differs from the number of observations in <{t}>", doc_text(root).encode()))
     # bounded open/close sequences over the tag alphabet (random walks; the exhaustive one-step probes are in the correspondence)
-    for _ in range(400 if thorough else 30):
+    for _ in range(4000 if thorough else 150):
         s, stack = "", []
         for _ in range(rng.randint(1, 6)):
             if stack and rng.random() < 0.4:
@@ -733,7 +727,7 @@ def correspond(ctx, corr):
         b = Path(f).read_bytes()
         docs.append(("archived " + os.path.basename(f), b, -1, "accept"))
         docs.append(("archived " + os.path.basename(f) + " split", b, rng.randrange(len(b)), "accept"))
-    for i in range(ctx.size(60, 1500)):
+    for i in range(ctx.size(250, 2500)):
         root = gen_network(rng)
         b = doc_text(root).encode()
         docs.append((f"grammar {i}", b, -1, "accept"))
@@ -786,6 +780,13 @@ def classify(ctx, failure):
     if "line number 0" in w or "refused without a line number" in w:
         if re.search(r"<(coordinates|vectors)[^>]*/>|<(coordinates|vectors)[^>]*>(?:(?!cov-mat).)*</\2>", doc, re.S):
             return "C11-silent-end"
+    det = failure.detail or ""
+    if "rc=87" in w and re.search(r"svd\.h:\d+:\d+: runtime error: applying non-zero offset \d+ to null pointer", det) and "reset_UWV" in det:
+        return "C11-svd-empty-ub"
+    if "rc=87" in w and re.search(r"memrep\.h:\d+:\d+: runtime error: null pointer passed as argument", det):
+        return "C11-memrep-empty-memcpy"
+    if "rc=87" in w and re.search(r"acord(hdiff|vector)\.h:\d+:\d+: runtime error: load of value \d+, which is not a valid value for type 'bool'", det):
+        return "C11-acord-uninit-active"
     if "error lost" in w and "<coordinates" in doc:
         return "C11-error-lost"
     if "grammar-derived document refused" in w and re.search(r'<parameters[^>]*\b(language|encoding)=', doc):
